@@ -13,7 +13,7 @@ from symx.stubs import Energies, Line, LineEngine, SymRng, orders_of, tags_of
 
 logging.disable(logging.CRITICAL)
 
-PROPERTIES = ["C11"]
+PROPERTIES = ["C11", "C09"]
 EXPLANATION = ("H11: run_md -> select_shoot -> retis_swap_zero / quantis_swap_zero (+ high_acc_swap, compute_weight, "
                "paste_paths, calc_cv_vector) executed with deterministic time-reversible line engines: each old path lies on a "
                "symbolic bi-infinite order sequence, propagation walks along it through the REAL add_to_path; order values, "
@@ -51,6 +51,16 @@ def bounds(tier, prop):
 
 
 def instances(tier, prop):
+    out = _instances(tier, prop)
+    if prop == "C09":
+        # C09 speaks about zero-swap moves too (accept <=> ACC, membership, rejection changes nothing): a subset suffices
+        out = [s for s in out if s["L0"] + s["L1"] <= 6 or s["kind"] == "quantis"]
+    for s in out:
+        s["prop"] = prop
+    return out
+
+
+def _instances(tier, prop):
     out = []
     n = 4 if tier == "quick" else 5
     for L0 in range(3, n + 1):
@@ -76,7 +86,16 @@ EXPECT = ["retis:ACC", "retis:BTX", "retis:FTX", "retis:0-L", "retis:restored", 
           "quantis:ACC", "quantis:QEA", "quantis:QNE", "quantis:BTX", "quantis:FTX", "quantis:e<1", "quantis:e>=1"]
 
 
+P = "C11"
+
+
+def expect(tier, prop):
+    return EXPECT
+
+
 def run_instance(ctx, shape):
+    global P
+    P = shape.get("prop", "C11")
     return (_retis if shape["kind"] == "retis" else _quantis)(ctx, shape)
 
 
@@ -186,20 +205,20 @@ def _retis(ctx, sh):
     try:
         md, call = _run(ctx, ens0, ens1, old0, old1, eng0, eng1, full, mv, None)
     except Exception as e:
-        ctx.fail("C11:no-exception", repr(e))
+        ctx.fail(f"{P}:zero-swap-no-exception", repr(e))
         return
     status = md["status"]
     _, accept, st2, pstat = call
     ctx.cover("retis:" + status)
-    ctx.check(accept == (status == "ACC") and st2 == status, "C11:accept-iff-status-ACC", f"{accept} {status}")
-    ctx.check(_same(old0, s0) and _same(old1, s1), "C11:old-paths-untouched")
+    ctx.check(accept == (status == "ACC") and st2 == status, f"{P}:zero-swap-accept-iff-status-ACC", f"{accept} {status}")
+    ctx.check(_same(old0, s0) and _same(old1, s1), f"{P}:zero-swap-old-paths-untouched")
     n0, n1 = md["picked"][-1]["traj"], md["picked"][0]["traj"]
     ended_left = lm1 is not False and (orders_of(old0)[-1] <= lm1)
     if ended_left:
         ctx.check(status == "0-L" and not accept and eng0.propagations + eng1.propagations == 0,
                   "C11:[0-]-path-ending-left-rejected-without-propagation", f"{status} props {eng0.propagations}+{eng1.propagations}")
     if status != "ACC":
-        ctx.check(n0 is old0 and n1 is old1, "C11:rejection-keeps-old-paths")
+        ctx.check(n0 is old0 and n1 is old1, f"{P}:zero-swap-rejection-keeps-old-paths")
         return
     L0, L1 = sh["L0"], sh["L1"]
     tg0, tg1 = tags_of(n0), tags_of(n1)
@@ -212,10 +231,10 @@ def _retis(ctx, sh):
               "C11:new-paths-time-ordered", lambda: f"{tg0} {tg1}")
     ok0, why0 = E.valid(orders_of(n0), intf0[0], intf0[1], intf0[2], start0, maxlength=M)
     ok1, why1 = E.valid(orders_of(n1), intf1[0], intf1[1], intf1[2], {"L"}, maxlength=M)
-    ctx.check(ok0, "C11:new-[0-]-valid-in-ensemble", lambda: f"{why0} {tg0}")
-    ctx.check(ok1, "C11:new-[0+]-valid-in-ensemble", lambda: f"{why1} {tg1}")
+    ctx.check(ok0, f"{P}:zero-swap-new-[0-]-valid-in-ensemble", lambda: f"{why0} {tg0}")
+    ctx.check(ok1, f"{P}:zero-swap-new-[0+]-valid-in-ensemble", lambda: f"{why1} {tg1}")
     ctx.check(n0.weights is not None and n0.weights[0] != 0 and n1.weights is not None and n1.weights[0] != 0,
-              "C11:nonzero-own-weights", lambda: f"{n0.weights} {n1.weights}")
+              f"{P}:zero-swap-nonzero-own-weights", lambda: f"{n0.weights} {n1.weights}")
     # swap twice restores (deterministic time-reversible dynamics)
     if moves[1] == "wf":
         return
@@ -225,7 +244,7 @@ def _retis(ctx, sh):
     try:
         md2, call2 = _run(ctx, ens0, ens1, n0, n1, eng0, eng1, full, mv, None)
     except Exception as e:
-        ctx.fail("C11:no-exception", repr(e))
+        ctx.fail(f"{P}:zero-swap-no-exception", repr(e))
         return
     if (L0 < M) and (L1 < M):
         ctx.check(md2["status"] == "ACC", "C11:second-swap-accepted-when-originals-fit", md2["status"])
@@ -258,13 +277,13 @@ def _quantis(ctx, sh):
     try:
         md, call = _run(ctx, ens0, ens1, old0, old1, eng0, eng1, [lam0, lamN], ["sh", "sh"], None)
     except Exception as e:
-        ctx.fail("C11:no-exception", repr(e))
+        ctx.fail(f"{P}:zero-swap-no-exception", repr(e))
         return
     status = md["status"]
     _, accept, st2, pstat = call
     ctx.cover("quantis:" + status)
-    ctx.check(accept == (status == "ACC") and st2 == status, "C11:accept-iff-status-ACC", f"{accept} {status}")
-    ctx.check(_same(old0, s0) and _same(old1, s1), "C11:old-paths-untouched")
+    ctx.check(accept == (status == "ACC") and st2 == status, f"{P}:zero-swap-accept-iff-status-ACC", f"{accept} {status}")
+    ctx.check(_same(old0, s0) and _same(old1, s1), f"{P}:zero-swap-old-paths-untouched")
     if var == "noenergy":
         ctx.check(status == "QNE" and eng0.propagations + eng1.propagations == 0, "C11:quantis-no-energies-rejected", status)
         return
@@ -303,5 +322,5 @@ def _quantis(ctx, sh):
               "C11:new-paths-time-ordered", lambda: f"{tg0} {tg1}")
     ok0, why0 = E.valid(orders_of(n0), intf0[0], intf0[1], intf0[2], start0, maxlength=M)
     ok1, why1 = E.valid(orders_of(n1), intf1[0], intf1[1], intf1[2], {"L"}, maxlength=M)
-    ctx.check(ok0, "C11:new-[0-]-valid-in-ensemble", lambda: f"{why0} {tg0}")
-    ctx.check(ok1, "C11:new-[0+]-valid-in-ensemble", lambda: f"{why1} {tg1}")
+    ctx.check(ok0, f"{P}:zero-swap-new-[0-]-valid-in-ensemble", lambda: f"{why0} {tg0}")
+    ctx.check(ok1, f"{P}:zero-swap-new-[0+]-valid-in-ensemble", lambda: f"{why1} {tg1}")
